@@ -49,15 +49,20 @@ def orbit (s : Str) (circ ds : Bool) : List Str :=
 /-- "the same molecule", decided by enumeration: one lies in the orbit of the other -/
 def sameMolecule (a b : Str) (circ ds : Bool) : Bool := (orbit a circ ds).contains b || (orbit b circ ds).contains a
 
-/-- Known finding C05-dna-u-strand, SEPARATION half, exactly (Props/C05 `hash_collision_class`): double-stranded,
-type DNA, a `U` in one of the two words, and the two words have the SAME OTHER STRAND up to rotation (so they
-differ only in the `U`/`T` spelling of letters: `U` and `T` both complement to `A`). -/
+/-- Known finding C05-dna-u-strand, SEPARATION half: a NECESSARY condition for a collision produced by the
+defect (Props/C05 `hash_collision_class`: every collision between different molecules lies in it):
+double-stranded, type DNA, a `U` in one of the two words, and the two words have the SAME OTHER STRAND up to
+rotation (so they differ only in the `U`/`T` spelling of letters: `U` and `T` both complement to `A`).  Not
+sufficient (`AAU`/`AAT` satisfy it and do not collide; the missing conjunct is "the other strand is the
+hashed one for both", `hash_collision_of_residue`): it is applied to OBSERVED failing pairs only, and the
+tag additionally requires implementation = model on every word, so it cannot excuse anything the recorded
+defect does not itself produce. -/
 def knownSep (ty : String) (circ ds : Bool) (w w' : Str) : Bool :=
   ds && ty == "DNA" && (w.contains 'U' || w'.contains 'U') && (rots circ (specRc w)).contains (specRc w')
 
-/-- COMPLETENESS half, exactly: double-stranded, type DNA, the word contains `U` and the orbit member with a
-different hash is (a rotation of) its OTHER STRAND — never a plain rotation of the word itself
-(rotation invariance is untouched by the defect). -/
+/-- COMPLETENESS half, likewise a necessary condition on an observed failing pair: double-stranded, type DNA,
+the word contains `U` and the orbit member with a different hash is (a rotation of) its OTHER STRAND — never a
+plain rotation of the word itself (rotation invariance is untouched by the defect). -/
 def knownComp (ty : String) (circ ds : Bool) (w o : Str) : Bool :=
   ds && ty == "DNA" && w.contains 'U' && (rots circ (specRc w)).contains o && !(rots circ w).contains o
 
